@@ -72,8 +72,8 @@ _HTTP = {"pkg": "graphql/handler", "workers": 8}
 CHECKS["C09"] = {
     "assumptions": ["http.ResponseWriter fake freezes headers at WriteHeader like net/http; request built in memory (no sockets)"],
     "harnesses": [
-        dict(_HTTP, harness="Harness_C09_http", setup="Setup_C09_http", reach=["http.executed", "http.refused"], quick={"params": {"forms": 1}}, thorough={"params": {"forms": 1}},
-             what="Server.ServeHTTP -> GET / POST / application/graphql / urlencoded form / multipart form (real mime/multipart parsing) -> real Executor over 12 documents x operationName x 9 Accept headers x 4 ResponseHeaders configurations"),
+        dict(_HTTP, harness="Harness_C09_http", setup="Setup_C09_http", reach=["http.executed", "http.refused"], quick={"params": {"forms": 1}, "sample_models": 40, "sample_every": 211}, thorough={"params": {"forms": 1}, "sample_models": 120, "sample_every": 97},
+             what="Server.ServeHTTP -> GET / POST / application/graphql / urlencoded form / multipart form (real mime/multipart parsing) -> real Executor over 29 documents (incl. one per further validation rule, texts colliding under 32-bit checksums) x operationName x 9 Accept headers x 4 ResponseHeaders configurations x suggestions on / off x a hand-built server / NewDefaultServer"),
         dict(_HTTP, harness="Harness_C09_sequence", setup="Setup_C09_sequence", reach=["seq.executed", "seq.refused"], quick={"sample_models": 30, "sample_every": 7},
              what="two requests (9 x 9 documents/operationNames incl. invalid ones, GET or POST each, query cache off / MapCache) through one server: the second executes exactly what it names or is refused on its own merits"),
         dict(_HTTP, harness="Harness_C09_malformed", setup="Setup_C09_malformed", reach=["bodies.rejected", "bodies.ok"],
@@ -175,7 +175,8 @@ CHECKS["C06"] = {
 
 CHECKS["C13"] = {
     "prepare": probes.prepare,
-    "assumptions": CHECKS["C06"]["assumptions"] + ["one family selects a field plainly and again inside deferred fragments: its groups hold nullable fields only (which group such a field belongs to when a non-null sibling fails is not settled by the property)"],
+    "assumptions": CHECKS["C06"]["assumptions"] + ["one family selects a field plainly and again inside deferred fragments: its groups hold nullable fields only (which group such a field belongs to when a non-null sibling fails is not settled by the property)",
+                                                 "@defer(if: x) with x null or a variable without a value: the reference inlines the fragment, as gqlgen does (its directive declares `if: Boolean = true`, nullable; the property does not say which payload carries the data then)"],
     "harnesses": [
         {"probe": "core", "harness": "Harness_C13_defer", "setup": "Setup_C13_defer", "reach": ["c13.compared", "c13.incremental"], "workers": 12, "sched_confirm": True,
          "configs_quick": ["single"], "configs_thorough": ["single", "follow", "wl2"], "map_permute": 3,
@@ -505,3 +506,63 @@ CHECKS["C10"]["harnesses"].append(
 _WIRE = dict(_WS, harness="Harness_C11_wire", reach=["c11.wire.sent", "c11.wire.noop", "c11.wire.decoded", "c11.wire.refused"], quick={"sample_models": 40, "sample_every": 7},
              what="the real exchangers of both subprotocols against tables written from the protocol documents: every server message x 3 ids x 4 payloads through Send (type name, id, payload unchanged, or nothing written), 12 client frame types through NextMessage (the message it stands for, or refused)")
 CHECKS["C11"]["harnesses"].append(dict(_WIRE))
+
+_DEEP = {"probe": "core", "harness": "Harness_C06_deepSiblings", "setup": "Setup_C06_schedules", "reach": ["c06.deep"], "workers": 8, "race": True,
+         "configs_quick": ["single"], "configs_thorough": ["single", "wl2", "follow"], "thorough": {"preempt": 1},
+         "what": "2..3 sibling fields failing under one parent whose path has 1, 3, 4, 5, 7 segments (objects, list elements, nested lists), every completion order [+1 preemption], race check: each failure once, at its own path"}
+CHECKS["C06"]["harnesses"].append(dict(_DEEP))
+CHECKS["C01"]["harnesses"].append(dict(_DEEP))
+
+# entity resolvers are user code too (C04 names plugin/federation/federation.gotpl): an error or panic in one lookup / one batch fails only the
+# representations it served, is reported, and reaches the recover hook once
+CHECKS["C04"]["harnesses"].append(
+    {"probe": "fed", "harness": "Harness_C20_entities", "setup": "Setup_C20_entities", "reach": ["c20.compared"], "workers": 12, "sched": "first",
+     "configs_quick": ["fed_single"], "configs_thorough": ["fed_single", "fed_wl2", "fed_explicit"],
+     "quick": {"params": {"maxreps": 2, "budget": 1}, "sample_models": 40, "sample_every": 17},
+     "thorough": {"params": {"maxreps": 3, "budget": 1}, "sample_models": 60, "sample_every": 211},
+     "what": "generated _entities on lists of 0..2 [3] representations over 19 shapes with one lookup or batch failing by error or panic: null exactly for the representations it served, at least one error, recover hook once per panic (shared with C20)"})
+
+CHECKS["C02"]["harnesses"].append(
+    {"probe": "opts", "harness": "Harness_C02_options", "setup": "Setup_C02_options", "reach": ["c02.opts.coerced", "c02.opts.rejected"], "workers": 4, "sched": "first",
+     "configs_quick": ["opts_default", "opts_retptr", "opts_valstruct"], "configs_thorough": ["opts_default", "opts_retptr", "opts_valstruct", "opts_slices", "opts_all"], "quick": {"sample_models": 13},
+     "what": "a third probe (generated models only): input objects (non-null and nullable arguments, nested, in lists, literals and variables, 13 cases) through the generated binders under return_pointers_in_unmarshalinput / struct_fields_always_pointers: false / omit_slice_element_pointers: the resolver receives the coerced input; a field that cannot be coerced is one error at its own path, no panic, resolver not called"})
+
+CHECKS["C07"]["harnesses"].append(
+    {"probe": "core", "harness": "Harness_C07_panicHistory", "setup": "Setup_C07_panicHistory", "reach": ["c07.panics"], "workers": 6, "sched": "first",
+     "configs_quick": ["single"], "configs_thorough": ["single", "follow", "wl2"], "quick": {"sample_models": 16},
+     "what": "two operations in one process, each with a resolver panicking at one of 4 positions (object field, union field, list element, non-null field), under graphql.DefaultRecover: the second response is the reference's for it alone (its error carries its own path)"})
+
+CHECKS["C06"]["harnesses"].append(
+    {"probe": "core", "harness": "Harness_C06_extensions", "setup": "Setup_C06_schedules", "reach": ["c06.extensions"], "workers": 8, "race": True,
+     "configs_quick": ["single"], "configs_thorough": ["single", "wl2", "follow"], "quick": {"preempt": 1, "sample_models": 6, "sample_every": 11}, "thorough": {"params": {"wide": 1}, "preempt": 1, "sample_models": 10, "sample_every": 101}, "native_retries": 2000,
+     "what": "6 [7] concurrently resolved fields / list elements each registering a response extension under its own key (graphql.RegisterExtension): every completion order incl. 1 [2] preemptions: all registrations are in the response; race check"})
+
+CHECKS["C01"]["harnesses"].append(
+    {"probe": "core", "harness": "Harness_C01_errorLists", "setup": "Setup_C01_errorLists", "reach": ["c01.errlists"], "workers": 4, "sched": "first",
+     "configs_quick": ["single", "follow"], "configs_thorough": ["single", "follow", "funcsyn", "wl1", "omitptr"], "quick": {"sample_models": 5},
+     "what": "resolvers returning a gqlerror.List of two entries on 5 operations (fields with and without schema directives, aliases, list elements, a non-null field with propagation): one response entry per list entry, at the field's path"})
+
+# a fault that escapes to the list-element closure under a worker limit must give its slot back: the operation terminates (C05's clause
+# for {worker_limit} x {fault points}); the fault harness under the worker-limit configurations, deadlock = violation
+CHECKS["C05"]["harnesses"].append(
+    {"probe": "core", "harness": "Harness_C04_faults", "setup": "Setup_C04_faults", "reach": ["c04.compared", "c04.panic"], "workers": 10, "sched": "first",
+     "configs_quick": ["wl1", "wl2"], "configs_thorough": ["wl1", "wl2", "follow_wl2"],
+     "quick": {"params": {"budget": 1}, "sample_models": 20, "sample_every": 11}, "thorough": {"params": {"budget": 2}, "sample_models": 60, "sample_every": 61},
+     "what": "one [two] faults (error, panic, a Go value that is not a schema type - which panics in the list-element closure) at every position of 8 operation families under worker_limit 1/2: the operation terminates (deadlock = every task blocked) with the reference's response (shared with C04)"})
+
+CHECKS["C12"]["harnesses"].append(
+    dict(_WS, harness="Harness_C12_multipartBurst", reach=["c12.burst"], quick={"sample_models": 14, "sample_every": 5},
+         what="multipart/mixed aggregator with 7..100 incremental payloads queued between flush ticks (14 sizes around powers of two x 5 tick positions): each delivered once, in order, closing boundary last"))
+CHECKS["C13"]["harnesses"].append(
+    dict(_WS, harness="Harness_C12_multipartBurst", reach=["c12.burst"], quick={"sample_models": 14, "sample_every": 5},
+         what="the same burst harness under C13's delivery clause: every payload of the sequence reaches the client once, the stream is terminated (shared with C12)"))
+
+CHECKS["C20"]["harnesses"].append(
+    {"probe": "fed", "harness": "Harness_C20_longLists", "setup": "Setup_C20_entities", "reach": ["c20.long"], "workers": 8, "sched": "first",
+     "configs_quick": ["fed_single"], "configs_thorough": ["fed_single", "fed_wl2", "fed_follow"], "quick": {"sample_models": 12, "sample_every": 7},
+     "what": "lists of 8..40 representations (8 lengths around powers of two) of one single-lookup type / the batch type / three types alternating, no or one failing lookup (first, middle, last): element i is the entity of representation i, one error per failed one"})
+
+CHECKS["C15"]["harnesses"].append(
+    {"pkg": "graphql/handler/extension", "harness": "Harness_C15_concurrentLookups", "workers": 8, "race": True, "reach": ["apq.lookups"],
+     "quick": {"preempt": 2, "sample_models": 12, "sample_every": 7}, "thorough": {"preempt": 3, "sample_models": 20, "sample_every": 101}, "native_retries": 3000,
+     "what": "two concurrent hash-only requests (same / different hashes, after an optional earlier hit) against the real LRU of graphql/handler/lru: every interleaving incl. 2 [3] preemptions at locks and atomic operations: each resolves to the text with its own hash; race check"})
